@@ -24,7 +24,7 @@ var vocab = []string{
 	";comment", ";assert 1", ";assert 0", ";assert CORESIZE==8000", ";assert a", ";name n", ";author", ";strategy", ";strategy x", ";redcode",
 }
 
-var hostileBytes = []string{"\x00", "\x1a", "\xff", "\xfe\xff", "\xc3", "\xe2\x82", "é", "λ", " ", "\x7f", "\x0c", "\x0b", "\"", "'", "\\", "`", "~", "^", "?", "[", "]"}
+var hostileBytes = []string{"\u212a", "\u212b", "\u2126", "\u1e9e", "\u0130", "\ufb01", "\u2028", "\u212a\u212a;", "\x00", "\x1a", "\xff", "\xfe\xff", "\xc3", "\xe2\x82", "é", "λ", " ", "\x7f", "\x0c", "\x0b", "\"", "'", "\\", "`", "~", "^", "?", "[", "]"}
 
 // repoSeeds returns the warrior sources shipped with the repository.
 func repoSeeds() []string {
@@ -247,7 +247,10 @@ func newTextGen() *textGen { return &textGen{seeds: repoSeeds()} }
 
 // validProgram renders a random well-formed program.
 func (tg *textGen) validProgram(r *Rng, d asm.Dialect, cfg asm.Config) (string, *asm.Prog) {
-	o := asm.GenOpts{Cfg: cfg, MaxLines: 1 + r.Intn(10), UseLabels: r.Chance(2, 3), UseEqus: r.Chance(1, 2), UseConsts: r.Chance(1, 3), Meta: r.Chance(1, 3)}
+	o := asm.GenOpts{Cfg: cfg, MaxLines: 1 + r.Intn(10), UseLabels: r.Chance(2, 3), UseEqus: r.Chance(1, 2), UseConsts: r.Chance(1, 3), Meta: r.Chance(1, 3), EndLabel: true}
+	if cfg.Length == cfg.CoreSize && cfg.Length <= 8 && r.Chance(1, 2) {
+		o.ExactLines = cfg.Length
+	}
 	if r.Chance(1, 3) {
 		o.UseFor = true
 		o.MaxForExp = 8
